@@ -374,6 +374,26 @@ def validate_traces(run, module, trace_path, invariants=("Final",), label=None, 
     return res, r
 
 
+def tlaps(run, module, timeout=1500, threads=4):
+    """Checks the TLAPS proof in spec/<module>.tla with tlapm (in a private scratch copy). Returns the number of proof
+    obligations, all proved; anything else (tool missing, timeout, an unproved obligation) is a problem of the proof or
+    of the tooling, never of the code: Inconclusive. The count is added to the evidence."""
+    root = os.path.dirname(os.path.dirname(os.path.abspath(__file__)))
+    d = os.path.join(run.scratch, "tlaps-" + module)
+    os.makedirs(d, exist_ok=True)
+    shutil.copy(os.path.join(root, "spec", module + ".tla"), d)
+    try:
+        p = subprocess.run(["tlapm", "--threads", str(threads), module + ".tla"], cwd=d, capture_output=True, text=True, timeout=timeout)
+    except (subprocess.TimeoutExpired, FileNotFoundError) as e:
+        raise Inconclusive("tlapm %s did not finish: %s" % (module, e))
+    m = re.search(r"All (\d+) obligations? proved", p.stdout + p.stderr)
+    if not m:
+        raise Inconclusive("TLAPS did not prove %s.tla: %s" % (module, (p.stdout + p.stderr)[-1500:]))
+    n = int(m.group(1))
+    run.cov.setdefault("tlaps", {})[module] = n
+    return n
+
+
 def trace_slice(trace_path, tid):
     """lines of the trace with id tid (from its reset line to the next reset)."""
     out, on = [], False
